@@ -879,6 +879,11 @@ def ct_cases(seed, thorough, slow=False):
         ta.append(short(scalar_a, 236, 300000))
     for op in ("keygen", "generatekey"):
         targeted[op] = [x for x in ta if x]
+    # signing multiplies by the secret scalar: one with its top 30-bit limb zero (a < 2^240, 1 key in 4096)
+    tiny = short(scalar_a, 240, 120000)
+    if tiny:
+        for op in ("sign", "signctx", "signph", "keygen"):
+            targeted[op].append(tiny)
     ct_cases.last = {"ref": ref, "pub": pub, "targeted": targeted}
     cases = []
     ops = CT_OPS32
